@@ -208,6 +208,20 @@ check('C18', 'DESIGN.md 4/C18',
       TB + ' Statistics tasks are never run; engine.io Socket class '
       'attributes patched by instrument() are restored after every case.')
 
+check('C20', 'DESIGN.md 4/C20',
+      'systematic schedule exploration: real threads under a cooperative '
+      'scheduler, exhaustive DFS over the interleavings of every pair of '
+      'terminating actions, Hypothesis-generated schedules for triples',
+      'Every interleaving - at the granularity of the server\'s accesses to '
+      'the client manager and the transport and of handler entry - of every '
+      'pair of {server.disconnect, client DISCONNECT, transport loss, '
+      'DISCONNECT of the other namespace} is executed on real threads; the '
+      'disconnect handler must run exactly once, no thread may raise, no '
+      'residue may remain, bystanders must be untouched.',
+      'Pre-emption only at instrumented operations (not between bytecodes); '
+      'threading async mode only; the harness owns the schedule '
+      '(vf/coop.py).')
+
 NOT_BUILT = {}
 
 
